@@ -151,6 +151,17 @@ def topo(defs):
     return out
 
 
+def const_literal_expr(n):
+    """initialiser made of literals, casts, parentheses and builtin operators only"""
+    k = n.get("kind")
+    if k in ("IntegerLiteral", "FloatingLiteral", "CXXBoolLiteralExpr", "CharacterLiteral"):
+        return True
+    if k in ("UnaryOperator", "BinaryOperator", "ParenExpr", "ImplicitCastExpr", "ConstantExpr", "CStyleCastExpr",
+             "CXXStaticCastExpr", "CXXFunctionalCastExpr"):
+        return all(const_literal_expr(c) for c in n.get("inner", []))
+    return False
+
+
 def translate(cfg, outdir):
     os.makedirs(outdir, exist_ok=True)
     tm = TypeMap(typedefs=cfg.get("typedefs"), class_alias=cfg.get("class_alias"), enums=cfg.get("enums"))
@@ -281,6 +292,14 @@ def translate(cfg, outdir):
                 tried.add(cn)
                 qn = d.split(" ")[0]
                 emit_unit({"name": qn, "tu": tu, "cname": cn, "class": cn.rsplit("__", 1)[0]}, objs, True)
+    # compile-time constants: value = the initialiser found in the TU (literals and arithmetic on literals only)
+    const_init = {}
+    for cn, (name, tu) in sorted(em.const_globals.items()):
+        for o in astq.query(tu, name):
+            if o.get("kind") == "VarDecl" and o.get("name") == name and o.get("inner"):
+                init = [x for x in o["inner"] if x.get("kind") != "FullComment"][-1]
+                if const_literal_expr(init):
+                    const_init[cn] = em.E(init)
     for lu in em.lifted_units:  # lifted lambdas / per-call-site algorithm models: may carry contracts like units
         meta.append({"unit": "%s of %s" % (lu["kind"], lu["of"]), "cname": lu["cname"], "tu": None, "loops": lu["loops"],
                      "lifted": True})
@@ -417,6 +436,10 @@ def translate(cfg, outdir):
         h.append("enum { %s = %d }; /* const integral global of the real code, value read from its declaration */" % (cn, v))
     for cn, ct in sorted(em.globals.items()):
         h.append("extern %s %s;" % (ct, cn))
+        if cn in const_init:
+            # value of the compile-time constant as found in the source (the verifier treats statics as nondet:
+            # contracts pin it with `requires X == VFI_X`)
+            h.append("#define VFI_%s (%s)" % (cn, const_init[cn]))
     news = []
     for cn, (tag, ctor, params) in sorted(em.news.items()):
         if ctor in em.unit_names:
@@ -437,7 +460,7 @@ def translate(cfg, outdir):
     c = []
     for cn, ct in sorted(em.globals.items()):
         if cn not in cfg.get("extern_globals", []):  # extern_globals are defined by the spec (e.g. generated tables)
-            c.append("%s %s;" % (ct, cn))
+            c.append("%s %s%s;" % (ct, cn, " = " + const_init[cn] if cn in const_init else ""))
     c.append("int vf_exc;")
     for lt in em.lifted:
         c.append(lt)
